@@ -8,6 +8,7 @@ is the raw material of the TLA+ trace validation (DESIGN 4.2).
 Nothing here knows about SSH; see peers.py for the reactive server/client.
 """
 import errno
+import os
 import weakref
 import socket as _socket
 import threading
@@ -303,6 +304,13 @@ class FakeSock:
         if not self.inq or self.inq[0] == STALL:
             if not self.blocking:
                 raise BlockingIOError(errno.EAGAIN, 'Resource temporarily unavailable')
+            if self.timeout is None:
+                # a blocking read without a timeout on a peer that stays silent never returns: the process hangs.  The harness
+                # records that as a hang (the child ends the way its watchdog alarm would end it) instead of waiting 60 s for it.
+                w.log(ev='read', n=self.n, got='blocks-for-ever')
+                import signal as _signal
+                os.kill(os.getpid(), _signal.SIGALRM)
+                _time.sleep(5)
             w.clock.advance(self.timeout if self.timeout is not None else 3600.0, timeout=True)
             w.log(ev='read', n=self.n, got='timeout')
             raise _socket.timeout('timed out')
